@@ -96,6 +96,12 @@ prop("C15", engine="netunit", level="exploration", technique="deterministic simu
      text="Stream-open attempts <= configured; SendMessage returns nil iff the last attempt opened a stream and no write failed, and then the receiver's handler for that kind saw the message exactly once from the right peer; never delivered on error; returns at the very instant of cancellation; never gives up early; a failed write resets the stream and is reported. Inbound: every well-formed message before a malformed part is dispatched once, in order, to the right handler with the connection's remote peer; a malformed stream is reset and reported exactly once; nothing is dispatched for the malformed part.",
      note="")
 
+prop("C13", engine="migsim", level="exploration", technique="deterministic simulation of manager start-up on a version-2 datastore (every datastore operation a scheduling point) with operations racing the migration; independently encoded v2 records; byte-equality oracle for repeated starts",
+     rule="one evaluation = one seeded run: 0-8 version-2 channel records (every status incl. the three deprecated paused ones, all four roles, uint64-range totals, arbitrary IPLD vouchers/results, stage logs or none) are written by an encoder in the harness (CBOR map form of the v2 struct, independent of the repository's migrations package); a real manager is started on SimDisk with three ready listeners registered before Start and 2-6 API operations issued while the migration runs; then 1-2 further starts on the migrated store and NewVoucher events on every non-terminal migrated channel with a durable-state probe; non-trivial = at least one record; distinct = schedule hash",
+     probes=["migrated-channel-checked", "deprecated-status-migrated", "op-before-ready", "second-start", "migrated-channel-accepts-events"], real=["channels/internal/migrations", "go-ds-versioning (runner, migrate, versioned fsm)", "channels, go-statemachine, go-statestore", "impl.Start / OnReady / API gating", "cbor-gen codecs (v2 and v3 records)"], stubs=["datastore -> SimDisk (yielding on every operation)", "network/transport -> SimHost/SimGraphsync (idle)"], assumptions=ASSUME + ["'migration finished' is observed as the write of the version key (the runner's last write)", "crash during a migration is outside the property's quantifier (observed, not asserted)"],
+     text="After start every accessor (peers, ids, base CID, selector, totals, indexes, message, vouchers, results, limit, finalisation flag, stage log) equals the stored value; deprecated paused statuses become Ongoing + flags; no /2 key survives, version key is 3; operations that complete before the version key is written are refused; each pre-registered ready listener fires exactly once with nil; further starts change no byte under /3 and the version key; migrated non-terminal channels accept and persist events.",
+     note="channels an early operation targeted are exempt from the field comparison (the operation may legitimately act once the store is ready)")
+
 ORDER = ["C%02d" % i for i in range(1, 21)]
 PENDING = {pid: "check under construction in this session (engine not yet registered); not claimed until its quick command runs clean" for pid in ORDER if pid not in P}
 
@@ -139,6 +145,7 @@ def main():
             {"name": "monsim", "path": "sim/monsim.go", "serves_properties": ["C14"], "kind_free_text": "real channel monitor against a recording manager double on the fake clock"},
             {"name": "wire", "path": "sim/wire.go", "serves_properties": ["C12"], "kind_free_text": "message codecs under generated inputs and stream faults, reference encoder from the schema"},
             {"name": "netunit", "path": "sim/netunit.go", "serves_properties": ["C15"], "kind_free_text": "real network layer on SimHost with scripted faults"},
+            {"name": "migsim", "path": "sim/migsim.go", "serves_properties": ["C13"], "kind_free_text": "manager start-up on independently encoded version-2 stores"},
             {"name": "netsim", "path": "sim/netscen.go", "serves_properties": ["C01", "C02", "C04", "C09", "C10", "C11", "C19", "C20"], "kind_free_text": "two real managers over SimHost/SimGraphsync/SimDisk under the simrt baton scheduler, with fault injection"},
         ],
         "checks": checks,
